@@ -875,7 +875,7 @@ impl<'g> FnCx<'g> {
         let st_tys: Vec<String> = st_vars.iter().map(|v| lean_ty(&self.u.resolve(&v.ty))).collect();
         let st_ty_text = if st_tys.is_empty() { "Unit".to_string() } else { st_tys.join(" × ") };
         let ret_payload_ty = {
-            let sig_like = FnSig { lean: String::new(), params: self.mut_params.iter().map(|p| Param { name: p.clone(), ty: self.lookup(p).map(|v| v.ty).unwrap_or(Ty::Unit), mut_ref: true }).collect(), ret: self.ret.clone(), fuel: false, generics: vec![] };
+            let sig_like = FnSig { lean: String::new(), params: self.mut_params.iter().map(|p| Param { name: p.clone(), ty: self.lookup(p).map(|v| v.ty).unwrap_or(Ty::Unit), mut_ref: true }).collect(), ret: self.ret.clone(), fuel: false, generics: vec![], externs: vec![] };
             lean_ret(&sig_like).trim_start_matches("Res ").to_string()
         };
         let out_ty = if has_ret { format!("Res ({} {} ({}))", if has_far { "ExitB" } else { "Exit" }, ret_payload_ty, st_ty_text) } else { format!("Res ({})", st_ty_text) };
@@ -886,7 +886,7 @@ impl<'g> FnCx<'g> {
             format!(
                 "def {}{}{}{} : List {} → {}{}\n  | []{} => {}\n  | x_ :: rest_{} =>\n{}\n",
                 loop_name,
-                self.generic_binders,
+                self.generic_binders.clone() + &self.g.externs.iter().map(|(_, l, t)| format!(" ({} : {})", l, lean_ty(t))).collect::<String>(),
                 fuel_param,
                 cap_params,
                 lean_ty(&self.u.resolve(elem_ty)),
@@ -901,7 +901,7 @@ impl<'g> FnCx<'g> {
             format!(
                 "def {}{}{} : Nat → {}{}\n  | 0{} => .error .diverge\n  | fuel + 1{} =>\n{}\n",
                 loop_name,
-                self.generic_binders,
+                self.generic_binders.clone() + &self.g.externs.iter().map(|(_, l, t)| format!(" ({} : {})", l, lean_ty(t))).collect::<String>(),
                 cap_params,
                 st_arrows,
                 out_ty,
